@@ -223,6 +223,11 @@ theorem kind_action {L : Nat} {fam c : Nat} {b : Bool} (ht : Term cx L c) (hc : 
   ⟨fun a m env st hin hrem => ht a m { env with fam := fam } st hin hrem,
    fun hb n a m env st r h hok => hc hb n a m { env with fam := fam } st r h hok⟩
 
+theorem kind_control {L : Nat} {kc c : Nat} {b : Bool} (ht : Term cx L c) (hc : b = true → Cons cx c) :
+    BodyTerm cx L (.control kc c) ∧ (b = true → BodyAdv cx (.control kc c)) :=
+  ⟨fun a m env st hin hrem => ht a m { env with ctl := kc } st hin hrem,
+   fun hb n a m env st r h hok => hc hb n a m { env with ctl := kc } st r h hok⟩
+
 theorem kind_state {L : Nat} {d : Bool} {c : Nat} {b : Bool} (ht : Term cx L c) (hc : b = true → Cons cx c) :
     BodyTerm cx L (.state d c) ∧ (b = true → BodyAdv cx (.state d c)) := by
   constructor
@@ -233,6 +238,43 @@ theorem kind_state {L : Nat} {d : Bool} {c : Nat} {b : Bool} (ht : Term cx L c) 
     simp only [body, Option.map_eq_some_iff] at h
     obtain ⟨r0, h0, rfl⟩ := h
     simpa using hc hb n a m { env with sd := env.sd + 1 } st r0 h0 (by simpa using hok)
+
+theorem kind_ifApply {L : Nat} {c : Nat} {acts : List RuleAct} {b : Bool} (ht : Term cx L c) (hc : b = true → Cons cx c) :
+    BodyTerm cx L (.ifApply c acts) ∧ (b = true → BodyAdv cx (.ifApply c acts)) := by
+  constructor
+  · intro a m env st hin hrem
+    by_cases hcnd : a = .action ∧ acts ≠ []
+    · obtain ⟨n, r, h⟩ := ht .action .optional env st hin hrem
+      refine ⟨n, ?_⟩
+      simp only [body]
+      rw [if_pos hcnd, h]
+      exact ⟨_, rfl⟩
+    · obtain ⟨n, r, h⟩ := ht a m env st hin hrem
+      refine ⟨n, ?_⟩
+      simp only [body]
+      rw [if_neg hcnd, h]
+      exact ⟨_, rfl⟩
+  · intro hb n a m env st r h hok
+    simp only [body] at h
+    split at h
+    · simp only [Option.map_eq_some_iff] at h
+      obtain ⟨r0, h0, rfl⟩ := h
+      split at hok
+      · rename_i hr0
+        simp only [dropOnFail_res, guardRestore_res] at hok
+        have := hc hb n .action .optional env st r0 h0 hr0
+        simp only [Ret.dropOnFail, guardRestore, hok]
+        simpa using this
+      · rename_i hr0
+        simp only [dropOnFail_res, guardRestore_res] at hok
+        exact absurd hok (by intro h'; exact hr0 h')
+    · exact hc hb n a m env st r h hok
+
+theorem kind_applyR (L : Nat) (acts : List RuleAct) : BodyTerm cx L (.applyR acts) := by
+  intro a m env st _ _
+  refine ⟨0, ?_⟩
+  simp only [body]
+  split <;> exact ⟨_, rfl⟩
 
 theorem kind_raise (L : Nat) (t : Nat) : BodyTerm cx L (.raise t) ∧ BodyAdv cx (.raise t) := by
   constructor
@@ -805,6 +847,7 @@ theorem nofail_of_body {i : Nat}
       · simp only [Option.map_eq_some_iff] at h0
         obtain ⟨r1, h1, rfl⟩ := h0
         simpa using ih _ _ _ _ _ h1
+      · exact core _ _ _ _ h0
 
 theorem body_must_nofail {c : Nat} {n : Nat} {a : AMode} {m : RMode} {env : Env} {st : St} {r : Ret}
     (h : body cx (run cx n) n (.must c) a m env st = some r) : r.res ≠ .fail := by
